@@ -1140,6 +1140,13 @@ func errChecked(fn *ssa.Function, call *ssa.Call, b *ssa.BasicBlock) bool {
 					}
 				}
 			}
+			if !match {
+				// a named result that go/ssa keeps in memory (`if err = write(); err == nil {`): the load sees the call's
+				// error when the store of it is the only one that can reach the load
+				if defs, zero, isCell := reachingCellDefs(bo.X); isCell && !zero && len(defs) == 1 && defs[0].v == errv {
+					match = true
+				}
+			}
 			if match && ((bo.Op == token.EQL && f.True) || (bo.Op == token.NEQ && !f.True)) {
 				return true
 			}
